@@ -34,6 +34,9 @@ def _etag_block_guard_clause(ret: str) -> str:
     )
 
 
+_IM_BLOCK = "            if if_match:\n                unmodified = not if_match.contains(etag)\n"
+_INM_SET = "unmodified = if_none_match.contains_weak(etag)"
+_IFR_SET = "unmodified = parse_etags(if_range.etag).contains(etag)"
 _PE_APPEND = "        if is_weak:\n            weak.append(raw)\n        else:\n            strong.append(raw)\n"
 _RFL_TAIL = "        if http.is_byte_range_valid(start, end, length):\n            return start, min(end, length)\n        return None\n"
 
@@ -100,6 +103,18 @@ MUTANTS = [
     # R11.8 counter stays absolute across the seek
     {"name": "range-wrapper-counter-not-rebased", "expect": "R11.8", "edits": [(WS, "            self.read_length = self.iterable.tell()  # type: ignore\n            contextual_read_length = self.read_length\n", "            contextual_read_length = self.start_byte\n")]},
     {"name": "range-wrapper-counter-rebased-on-one-branch", "expect": "R11.8", "edits": [(WS, "            self.read_length = self.iterable.tell()  # type: ignore\n            contextual_read_length = self.read_length\n", "            contextual_read_length = self.iterable.tell()\n            if not contextual_read_length:\n                self.read_length = contextual_read_length\n")]},
+    # R11.2 truth table of the whole function: the validator that is evaluated decides alone (no earlier verdict survives)
+    {"name": "if-match-verdict-only-set-on-failure", "expect": "R11.2", "edits": [(SH, _IM_BLOCK, "            if if_match:\n                if not if_match.contains(etag):\n                    unmodified = True\n")]},
+    {"name": "if-match-skipped-when-date-matched", "expect": "R11.2", "edits": [(SH, _IM_BLOCK, "            if if_match and not unmodified:\n                unmodified = not if_match.contains(etag)\n")]},
+    {"name": "date-match-returns-before-if-match", "expect": "R11.2", "edits": [(SH, "            if_match = parse_etags(http_if_match)\n", "            if unmodified and not if_none_match:\n                return False\n            if_match = parse_etags(http_if_match)\n")]},
+    {"name": "if-none-match-only-raises-verdict", "expect": "R11.2", "edits": [(SH, _INM_SET, "if if_none_match.contains_weak(etag):\n                    unmodified = True")]},
+    {"name": "if-range-tag-only-raises-verdict", "expect": "R11.2", "edits": [(SH, _IFR_SET, "if parse_etags(if_range.etag).contains(etag):\n                unmodified = True")]},
+    {"name": "if-match-absent-resets-verdict", "expect": "R11.2", "edits": [(SH, _IM_BLOCK, "            unmodified = bool(if_match) and not if_match.contains(etag)\n")]},
+    {"name": "if-match-branches-polarity-inverted", "expect": "R11.2", "edits": [(SH, _IM_BLOCK, "            if if_match:\n                if if_match.contains(etag):\n                    unmodified = True\n                else:\n                    unmodified = False\n")]},
+    {"name": "if-match-augmented-or", "expect": "R11.2", "edits": [(SH, _IM_BLOCK, "            if if_match:\n                unmodified |= not if_match.contains(etag)\n")]},
+    {"name": "if-match-flag-local-date-survives", "expect": "R11.2", "edits": [(SH, _IM_BLOCK, "            if if_match:\n                rejected = not if_match.contains(etag)\n                unmodified = unmodified or rejected\n")]},
+    {"name": "if-match-expression-keeps-verdict-on-admit", "expect": "R11.2", "edits": [(SH, _IM_BLOCK, "            unmodified = True if (if_match and not if_match.contains(etag)) else unmodified\n")]},
+    {"name": "if-range-tag-asked-only-when-date-failed", "expect": "R11.2", "edits": [(SH, "            " + _IFR_SET + "\n", "            if not unmodified:\n                " + _IFR_SET + "\n")]},
 ]
 
 TWINS = [
@@ -147,4 +162,19 @@ TWINS = [
     {"name": "etag-verdict-early-return-style", "edits": [(ET, "        if self.star_tag:\n            return True\n        return self.is_strong(etag)", "        return self.star_tag or self.is_strong(etag)")]},
     {"name": "dt-as-utc-simplified", "edits": [(IN, "    elif dt.tzinfo != timezone.utc:\n        return dt.astimezone(timezone.utc)\n\n    return dt\n", "\n    return dt.astimezone(timezone.utc)\n")]},
     {"name": "send-file-wider-handler", "edits": [(UT, "        except RequestedRangeNotSatisfiable:\n            if file is not None:\n                file.close()\n\n            raise", "        except Exception:\n            if file is not None:\n                file.close()\n            raise")]},
+    # verdict by control flow instead of one assignment (decided by the R11.2 truth table)
+    {"name": "if-match-verdict-by-branches", "edits": [(SH, _IM_BLOCK, "            if if_match:\n                if if_match.contains(etag):\n                    unmodified = False\n                else:\n                    unmodified = True\n")]},
+    {"name": "if-match-verdict-conditional-expression", "edits": [(SH, _IM_BLOCK, "            if if_match:\n                unmodified = False if if_match.contains(etag) else True\n")]},
+    {"name": "if-none-match-verdict-by-branches", "edits": [(SH, _INM_SET, "if if_none_match.contains_weak(etag):\n                    unmodified = True\n                else:\n                    unmodified = False")]},
+    {"name": "if-match-returns-directly", "edits": [(SH, _IM_BLOCK, "            if if_match:\n                return if_match.contains(etag)\n")]},
+    {"name": "if-match-constant-returns", "edits": [(SH, _IM_BLOCK, "            if if_match:\n                if not if_match.contains(etag):\n                    return False\n                return True\n")]},
+    {"name": "if-match-gated-on-header-too", "edits": [(SH, "            if if_match:\n", "            if http_if_match and if_match:\n")]},
+    {"name": "if-match-reset-then-raised", "edits": [(SH, _IM_BLOCK, "            if if_match:\n                unmodified = False\n                if not if_match.contains(etag):\n                    unmodified = True\n")]},
+    {"name": "if-range-tag-verdict-conditional-expression", "edits": [(SH, _IFR_SET, "unmodified = True if parse_etags(if_range.etag).contains(etag) else False")]},
+    {"name": "if-match-admitted-flag-local", "edits": [(SH, _IM_BLOCK, "            if if_match:\n                admitted = if_match.contains(etag)\n                unmodified = not admitted\n")]},
+    {"name": "if-none-match-only-without-if-match", "edits": [(SH, "            if_none_match = parse_etags(http_if_none_match)\n            if if_none_match:\n", "            if_match = parse_etags(http_if_match)\n            if_none_match = parse_etags(http_if_none_match)\n            if if_none_match and not if_match:\n"), (SH, "            if_match = parse_etags(http_if_match)\n            if if_match:\n", "            if if_match:\n")]},
+    {"name": "if-match-if-elif", "edits": [(SH, _IM_BLOCK, "            if if_match and if_match.contains(etag):\n                unmodified = False\n            elif if_match:\n                unmodified = True\n")]},
+    {"name": "if-none-match-expression-keeps-verdict-when-absent", "edits": [(SH, "            if if_none_match:\n", "            if True:\n"), (SH, _INM_SET, "unmodified = if_none_match.contains_weak(etag) if if_none_match else unmodified")]},
+    {"name": "if-range-gate-through-inverted-flag", "edits": [(SH, "    if not ignore_if_range and http_range is not None:", "    skip_if_range = ignore_if_range or http_range is None\n    if not skip_if_range:")]},
+    {"name": "if-range-object-truthiness", "edits": [(SH, "        if if_range is not None and if_range.etag is not None:", "        if if_range and if_range.etag is not None:")]},
 ]
